@@ -31,6 +31,13 @@ Two further dimensions of every query sequence:
   * HAND-OUT probes on a twin object: what the accessors hand out directly (r.array, r.inputs / r.outputs, r[in] rows,
     s.outputs, the lists the caller passed in) is written to and coherence re-checked - an OBSERVATION only (ctx.notes,
     `handout-aliasing:observed`), the property does not promise it (see ASSUMPTIONS); derived objects are a normal oracle.
+  * EQUAL-BUT-NOT-IDENTICAL arguments ("rtform" / "ctor" of a sim case): the result-type string is handed to the constructor
+    as the source literal or as an equal string made at run time (joined from characters, sliced, decoded from bytes, read from
+    JSON, concatenated, formatted, stripped, case-folded, taken from ANOTHER result's `.result_type` or from a mapped result's),
+    as a str subclass / numpy.str_, or interned; by keyword or positionally.  Every clause (construction accepted / refused,
+    mappings refused exactly for amplitude results, values, coherence) is evaluated as for the literal: the outcome may depend
+    on the VALUE of the string only.  `invert` is also given as float 1.0 / 0.0 and numpy integers (equal to True / False, not
+    the singletons).  SamplingResult has no string-valued argument.
 Values are dyadic rationals, so the floats the implementation sees are exact and so are its sums.
 The iteration order of the Python set in `_recombine_mapped_result` is observed on the
 implementation and handed to the model as its column order (it must enumerate the model's image
@@ -81,7 +88,9 @@ ASSUMPTIONS = [
     "and their arrays / rows / output lists) may be written to freely and must not reach the result",
     "display methods (display_as_dataframe, print_outputs, plot) may refuse a content (counted, not judged); what they show is "
     "not part of this property - only that the result they were called on is bit-identical afterwards",
-    "bool-like `invert` values are bool, int 1 / 0 and numpy.bool_",
+    "bool-like `invert` values are bool, int 1 / 0, float 1.0 / 0.0, numpy.bool_ and numpy.int64 1 / 0",
+    "a result type is a str (or an instance of a str subclass) whose value decides; which object carries the value is the "
+    "client's business",
 ]
 
 # the direct hand-outs (see ASSUMPTIONS): False = observation only (coordinator's decision: the property does not promise that
@@ -189,11 +198,12 @@ SIZE = {"big": False}  # thorough tier: larger results, longer chains
 
 
 # how `invert` is handed to a mapping method: by keyword / positionally / not at all, as bool, int or numpy bool
-FORMS = ["kw", "pos", "default", "kw:int", "pos:int", "kw:np", "pos:np"]
+FORMS = ["kw", "pos", "default", "kw:int", "pos:int", "kw:np", "pos:np", "kw:float", "pos:float", "kw:npint", "pos:npint"]
 
 
 def gen_form(rng, inv: bool) -> str:
-    f = rng.choice(["kw"] * 4 + ["pos"] * 4 + ["default"] * 2 + ["kw:int", "pos:int", "kw:np", "pos:np"])
+    f = rng.choice(["kw"] * 4 + ["pos"] * 4 + ["default"] * 2 + ["kw:int", "pos:int", "kw:np", "pos:np"] +
+                   ["kw:float", "pos:float", "kw:npint", "pos:npint"])
     return "pos" if f == "default" and inv else f
 
 
@@ -216,7 +226,7 @@ def gen_use(rng, kind: str) -> dict:
     if m == "df":
         u = {"m": "df", "thr": rng.choice(THRESHOLDS), "form": rng.choice(["pos", "kw"]), "mut": rng.random() < 0.4}
         if kind == "sim":
-            u["conv"] = rng.choice([None, None, False, True])
+            u["conv"] = rng.choice([None, None, False, True, False, True, 0, 1])
         return u
     if m == "print":
         return {"m": "print", "rounding": rng.choice([None, None, 0, 2, 12])} if kind == "sim" else {"m": "print"}
@@ -297,6 +307,82 @@ def gen_value_for(rng, dt: str, imag: bool, small: bool = False) -> list:
     return gen_value(rng, imag)
 
 
+# how the result-type STRING reaches the constructor: the source literal, or an equal string that is another object
+RT_FORMS = ["join", "slice", "bytes", "json", "concat", "format", "strip", "casefold", "from-result", "from-mapped", "subclass",
+            "np.str_", "interned"]
+RT_LITERAL = {"probability": "probability", "probability_amplitude": "probability_amplitude"}
+
+
+class _Str(str):
+    """a str subclass, as produced by enum-like helpers and config libraries"""
+
+    __slots__ = ()
+
+
+def rtype_obj(rt: str, form: str):
+    """the object handed over as result_type: equal to rt, made the way `form` says"""
+    lit = RT_LITERAL.get(rt, rt)
+    fresh = "".join(list(rt))  # a new str object with the same value (never interned)
+    if form == "literal":
+        return lit
+    if form == "join":
+        return fresh
+    if form == "slice":
+        return (rt + "#")[:-1]
+    if form == "bytes":
+        return str(rt.encode("ascii"), "ascii")
+    if form == "json":
+        return json.loads(json.dumps({"result_type": rt}))["result_type"]
+    if form == "concat":
+        return rt[:4] + rt[4:]
+    if form == "format":
+        return f"{rt[:3]}{rt[3:]}"
+    if form == "strip":
+        return ("\x00\x00" + rt + "\x00").strip("\x00")  # only what was added is stripped: the value is rt
+    if form == "casefold":
+        return rt.swapcase().swapcase()
+    if form == "subclass":
+        return _Str(rt)
+    if form == "np.str_":
+        return np.str_(rt)
+    if form == "interned":
+        import sys
+
+        return sys.intern(fresh)
+    if form in ("from-result", "from-mapped"):
+        # read from ANOTHER result, itself built with a run-time string (a valid type only; else as "join")
+        if rt not in RT_LITERAL:
+            return fresh
+        with warnings.catch_warnings():
+            warnings.simplefilter("ignore")
+            other = SimulationResult(np.array([[1.0, 0.0]]), fresh, inputs=[State([1, 0])], outputs=[State([1, 0]), State([0, 1])])
+            if form == "from-mapped" and rt == "probability":
+                other = other.apply_parity_mapping()
+        return other.result_type
+    raise MachineryFault(f"unknown result-type form {form}")
+
+
+def _rtype_selfcheck() -> None:
+    for rt in ("probability", "probability_amplitude", "counts", "Probability_Amplitude", "probability_amplitude ", ""):
+        for form in ["literal"] + RT_FORMS:
+            o = rtype_obj(rt, form)
+            if not (isinstance(o, str) and o == rt and str(o) == rt and len(o) == len(rt)):
+                raise MachineryFault(f"result-type form {form} does not preserve the value {rt!r}: {o!r}")
+
+
+def construct_sim(case: dict, arr, ins, outs):
+    """SimulationResult(...) with the case's result-type object and call form"""
+    rt = rtype_obj(case["rtype"], case.get("rtform", "literal"))
+    ctor = case.get("ctor", "pos")
+    if ctor == "kw":
+        return SimulationResult(arr, result_type=rt, inputs=ins, outputs=outs)
+    if ctor == "allkw":
+        return SimulationResult(results=arr, outputs=outs, inputs=ins, result_type=rt)
+    if ctor == "allpos":
+        return SimulationResult(arr, rt, ins, outs)
+    return SimulationResult(arr, rt, inputs=ins, outputs=outs)
+
+
 def gen_sim_case(ctx: Ctx, rng) -> dict:
     modes = rng.randint(0, 4) if rng.random() < 0.1 else rng.randint(1, 4)
     r = rng.choice([0, 1, 1, 2, 2, 3, 4] + ([5, 6] if SIZE["big"] else []))
@@ -343,6 +429,10 @@ def gen_sim_case(ctx: Ctx, rng) -> dict:
     case = {"kind": "sim", "rtype": rt, "dtype": dt, "shape": shape, "array": arr, "inputs": ins, "outputs": outs, "q": qs}
     if rng.random() < 0.5:
         case["handout"] = gen_handout(rng, "sim")
+    if rng.random() < 0.45:
+        case["rtform"] = rng.choice(RT_FORMS)
+    if rng.random() < 0.3:
+        case["ctor"] = rng.choice(["kw", "allkw", "allpos"])
     return case
 
 
@@ -498,6 +588,23 @@ def corpus() -> list:
             out.append({"kind": "samp", "ctype": "int", "input": [1, 1, 0], "q": [],
                         "results": [[s, [v, "0"]] for s, v in zip([[2, 0, 0], [1, 1, 0], [0, 3, 1]], ["3", "5", "1"])],
                         "handout": {"what": what, "how": how, "i": 1, "j": 0, "map": ["parity", True]}})
+    # the result-type string as an equal object that is not the literal: every way of making it x every type (valid or not),
+    # every constructor call form; all four mappings on the same object, a chain, subscripts, a display call in between
+    amp_vals = [[["1/2", "0"], ["0", "1/2"], ["0", "-1/2"], ["1/2", "0"]], [["1/8", "1/4"], ["-1/4", "0"], ["0", "1/2"], ["1/2", "-1/8"]]]
+    prob_vals = [[["1/4", "0"], ["1/4", "0"], ["1/4", "0"], ["1/4", "0"]], [["1/8", "0"], ["0", "0"], ["3/8", "0"], ["1/2", "0"]]]
+    outs4b = [[1, 1, 0], [2, 0, 0], [0, 2, 0], [1, 0, 1]]
+    qrt = [["fan", [[k, i, f] for (k, i), f in zip(every, ("kw", "pos", "default", "pos:int"))]],
+           ["get", {"tup": [{"st": [1, 1, 0]}, {"st": [2, 0, 0]}]}], ["map", [["parity", False, "default"], ["threshold", True, "kw:np"]]],
+           ["use", {"m": "df", "thr": None, "form": "kw", "conv": True, "mut": False}], ["fan", [["threshold", False, "pos:float"]]],
+           ["use", {"m": "acc"}], ["map", [["threshold", False, "kw"]]]]
+    for n_, form in enumerate(["literal"] + RT_FORMS):
+        for rt, vals, dt in (("probability_amplitude", amp_vals, "complex128"), ("probability", prob_vals, "float64"),
+                             ("probability_amplitude", prob_vals, "float64")):
+            out.append({"kind": "sim", "rtype": rt, "rtform": form, "ctor": ["pos", "kw", "allkw", "allpos"][n_ % 4], "dtype": dt,
+                        "shape": [2, 4], "array": vals, "inputs": ins2, "outputs": outs4b, "q": qrt})
+        for rt in ("counts", "prob", "Probability_Amplitude", "probability_amplitude ", "probability-amplitude", ""):
+            out.append({"kind": "sim", "rtype": rt, "rtform": form, "ctor": ["kw", "pos"][n_ % 2], "dtype": "float64", "shape": [2, 4],
+                        "array": prob_vals, "inputs": ins2, "outputs": outs4b, "q": qrt[:2]})
     return out
 
 
@@ -685,7 +792,8 @@ def snap_sim(res):
 
 def inv_value(inv: bool, form: str):
     t = form.split(":")[1] if ":" in form else "bool"
-    return int(inv) if t == "int" else np.bool_(inv) if t == "np" else bool(inv)
+    return int(inv) if t == "int" else np.bool_(inv) if t == "np" else float(inv) if t == "float" else \
+        np.int64(inv) if t == "npint" else bool(inv)
 
 
 def call_mapping(obj, kind: str, inv: bool, form: str = "kw"):
@@ -821,7 +929,7 @@ def handout_sim(ctx: Ctx, case: dict) -> list[str]:
     arr, _lossy = build_array(case)
     ins = [State(list(s)) for s in case["inputs"]]
     outs = [State(list(s)) for s in case["outputs"]]
-    built = ires(lambda: SimulationResult(arr, case["rtype"], inputs=ins, outputs=outs))
+    built = ires(lambda: construct_sim(case, arr, ins, outs))
     if built[0] != "ok":
         return []
     t = built[1]
@@ -898,8 +1006,15 @@ def run_sim(ctx: Ctx, case: dict) -> list[str]:
     arr, lossy = build_array(case)
     ins = [State(list(s)) for s in case["inputs"]]
     outs = [State(list(s)) for s in case["outputs"]]
-    built = ires(lambda: SimulationResult(arr, case["rtype"], inputs=ins, outputs=outs))
+    built = ires(lambda: construct_sim(case, arr, ins, outs))
     valid_type = case["rtype"] in ("probability", "probability_amplitude")
+    rtform = case.get("rtform", "literal")
+    if valid_type:
+        same = rtype_obj(case["rtype"], rtform) is RT_LITERAL[case["rtype"]]
+        ctx.count(f"sim:result-type-as:{rtform}:" + ("the-literal-object" if same else "equal-not-identical") + ":" + case["rtype"])
+    else:
+        ctx.count(f"sim:result-type-as:{rtform}:invalid-type")
+    ctx.count("sim:constructor-call:" + case.get("ctor", "pos"))
     ok_shape = shape == [len(ins), len(outs)]
     ctx.count("sim:new:" + ("ok" if valid_type and ok_shape else "bad-type" if not valid_type else "bad-shape"))
     if valid_type:
@@ -913,7 +1028,8 @@ def run_sim(ctx: Ctx, case: dict) -> list[str]:
     if 0 in shape:
         ctx.count("sim:empty-rows-or-columns")
     if (built[0] == "ok") != (valid_type and ok_shape) or (built[0] == "err" and built[1] != "ResultCreationError"):
-        probs.append(f"oracle: SimulationResult(type={case['rtype']}, {dt} values of shape {shape}, {len(ins)} inputs, {len(outs)} outputs) -> {built}")
+        probs.append(f"oracle: SimulationResult(type={case['rtype']}{'' if rtform == 'literal' else ' [string made by: ' + rtform + ']'}, "
+                     f"{dt} values of shape {shape}, {len(ins)} inputs, {len(outs)} outputs) -> {built}")
     # model: queries need the set orders observed on the implementation, so run the implementation first
     res = built[1] if built[0] == "ok" else None
     impl_answers = []
@@ -947,7 +1063,8 @@ def run_sim(ctx: Ctx, case: dict) -> list[str]:
             out.append(f"oracle: {w}: the result the mapping was applied to has changed (array / nested values / lists)")
         if amp != (nxt == ("err", "ValueError")):
             out.append(f"oracle: {w}: {'accepted' if nxt[0] == 'ok' else 'raised ' + nxt[1]} for a {case['rtype']} result "
-                       f"stored as {np.asarray(cur.array).dtype} (mappings are refused, with a ValueError, exactly for amplitude results)")
+                       f"stored as {np.asarray(cur.array).dtype} (mappings are refused, with a ValueError, exactly for amplitude results)"
+                       + ("" if rtform == "literal" else f" [the type string was made by: {rtform}]"))
         out += frame(w)
         if nxt[0] == "ok":
             keep(f"the result of an earlier mapping ({kind}, invert={inv})", nxt[1])
@@ -989,6 +1106,8 @@ def run_sim(ctx: Ctx, case: dict) -> list[str]:
         return out
 
     if res is not None:
+        if not (isinstance(res.result_type, str) and res.result_type == case["rtype"]):
+            probs.append(f"oracle: result_type of the constructed result is {res.result_type!r}, built with a string equal to {case['rtype']!r}")
         probs += coherence(res, "constructed result", exact=True)
         snap0 = snap_sim(res)
         keep("the constructed result", res)
@@ -1407,6 +1526,11 @@ def shrink(ctx: Ctx, case: dict) -> dict:
             cur = without
         elif cur["q"] and fails({**cur, "q": []}):
             cur = {**cur, "q": []}
+    for key in ("ctor", "rtform"):  # the form of the type string / of the constructor call only where the failure needs it
+        if key in cur:
+            without = {k: v for k, v in cur.items() if k != key}
+            if fails(without):
+                cur = without
     return cur if fails(cur) else case
 
 
@@ -1462,7 +1586,9 @@ def run(ctx: Ctx) -> None:
                 "independently of the result type) and SamplingResults (0-8 outputs, counts as Python / numpy ints, floats, "
                 "Fractions, bools) with 2-6 queries each: subscripts of every form, chains of 1-3 threshold/parity mappings (each "
                 "applied to the previous mapped result) and fans of 2-8 mappings applied to the same object, plain or inverted, "
-                "`invert` given by keyword / positionally / by default as bool, int or numpy bool; every public method that is not "
+                "`invert` given by keyword / positionally / by default as bool, int, float or numpy bool / int; the result-type "
+                "string given as the literal or as an equal object made at run time in 13 ways (joined, sliced, decoded, from JSON, "
+                "from another result, str subclass, ...), constructor called positionally or by keyword; every public method that is not "
                 "a mapping (display_as_dataframe with default and user thresholds and both conv_to_probability settings, "
                 "print_outputs, plot, str / repr, iteration, accessors, dictionary access) as an intermediate step, after which "
                 "every live object must be bit-identical (values around the display thresholds: 2^-40..2^-60 of either sign, "
@@ -1470,6 +1596,7 @@ def run(ctx: Ctx) -> None:
                 "types x all four mappings; every call form; every display call on threshold-sized values; every hand-out) runs "
                 "first; non-trivial = a result with >=2 outputs that is mapped, or >=2x2; distinct = distinct case")
     first = selftest(ctx)
+    _rtype_selfcheck()
     SIZE["big"] = ctx.thorough
     complex_probability_note(ctx)
     rng = ctx.rng
